@@ -15,7 +15,7 @@ RULE = (
     "Non-trivial = n >= 2 and a partition with >= 2 chunks or a merge; distinct = distinct event digests among those."
 )
 PROBES = ["single-sample-chunks", "merge-k=1", "merge-k=n-1", "sign-change-of-count-difference", "1-bit-data",
-          "constant-channel", "mode:basic", "mode:full", "order:ba", "huge-mean", "tiny-amplitude", "merge-repeated", "strided-chunk"]
+          "constant-channel", "mode:basic", "mode:full", "order:ba", "huge-mean", "tiny-amplitude", "merge-repeated", "strided-chunk", "merge-by-augmented-assignment"]
 COMPONENTS = {
     "real": ["sigpyproc.core.stats.ChannelStats.push_data/__add__ and its derived properties",
              "kernels.compute_online_moments(_basic)/add_online_moments (compiled, 1 thread)"],
